@@ -309,4 +309,7 @@ class Conditional(__Group):
             raise _ex.InvalidArgumentTypeException(message)
         if _re.fullmatch("[A-Za-z_][\w]*", name) is None:
             raise _ex.InvalidCapturingGroupNameException(name)
+        pre1 = __class__._to_pregex(pre1)
+        if pre2 is not None:
+            pre2 = __class__._to_pregex(pre2)
         super().__init__(name, lambda s: f"(?({s}){pre1}{'|' + str(pre2) if pre2 != None else ''})")
